@@ -113,6 +113,8 @@ def run(rng, tier, res=None, want=("arcs", "pdf", "cluster")):
         for ci, k in enumerate(ks):
             prior = (enc(sg.density), adj_ints(sg, n), [sg.nodes[i].n_plateaus for i in range(n)],
                      [enc(sg.nodes[i].radius) for i in range(n)])
+            junk = [np.full(k, 1e300), np.full(k + 1, 1e300), np.full(k + 1, 7.0)]
+            del junk                      # freed blocks of the sizes create_arcs allocates: results must not depend on them
             maxd = sg.create_arcs(k, fn, True, M)
             line = (f"arcs {n} {k} {TOP} {TINY} {ONE} {wtok} {prior[0]} {lists_tok(prior[1])} "
                     f"{ints(prior[2])} {ints(prior[3])}")
@@ -121,6 +123,17 @@ def run(rng, tier, res=None, want=("arcs", "pdf", "cluster")):
             res.hit("arcs_fresh" if ci == 0 else "arcs_reused"); res.hit("arcs_" + kind)
             if k > n - 1:
                 res.hit("arcs_k_exceeds")
+            if ci == 0 and not warm and case % 3 == 0:
+                # C07: the same call on an equal fresh subgraph after a different allocation history gives the same result
+                junk2 = [np.zeros(k), np.zeros(k + 1)]
+                del junk2
+                sgb = KNNSubgraph(np.zeros((n, 1)), np.array(lab, dtype=int), I=(np.array(I) if I is not None else None))
+                maxd_b = sgb.create_arcs(k, fn, True, M)
+                if [enc(v) for v in maxd_b] != [enc(v) for v in maxd] or enc(sgb.density) != enc(sg.density):
+                    res.violations.append({"property": "C07", "what": f"create_arcs on equal fresh subgraphs returned {list(maxd)} / {list(maxd_b)} "
+                                                                       f"(density bound {sg.density} / {sgb.density}): the result depends on the call history",
+                                           "replay": dict(meta, k=k)})
+                res.hit("c07_history_checked")
             if ci == 0 and not warm:
                 # ---- C12 oracle on a fresh subgraph (a re-used one keeps a running density bound: mirrored, not claimed) ----
                 msgs = []
